@@ -10,7 +10,7 @@ def cancel(ch, ctx, did, **kw):
 
 def obligations(tier):
     obs = [kernels.e1("C10", "L8_canceling_holds", "L8_canceling_holds", timeout=600)]
-    quick = [("D02", 5), ("D04", 5), ("D05a", 5), ("D10", 5), ("D11", 5), ("D11s", 5), ("D12p", 6), ("D13", 4)]
+    quick = [("D02", 5), ("D04", 5), ("D07", 5), ("D05a", 5), ("D10", 5), ("D11", 5), ("D11s", 5), ("D12p", 6), ("D13", 4)]
     for did, steps in quick:
         o = ob("C10", "e2c." + did, "vt.harness.C10:cancel", {"did": did, "steps": steps, "control": "both", "tokens": True}, timeout=900)
         o["antecedents"] = ["c10_last_reported", "c10_offer_checked"]
